@@ -225,7 +225,7 @@ def eval_cases(name, imports, defs, case_type, cases, fn, shard=400, timeout=900
                 continue
             m = re.search(r'=\s*\((\d+)(?:%nat)?,\s*(\d+)(?:%nat)?\)\s*:\s*nat \* nat', out)
             body = out[out.rindex('= '):]
-            found = re.findall(r'\((\d+)(?:%nat)?,\s*(\d+)(?:%nat)?\)', body)
+            found = re.findall(r'\(\s*(\d+)(?:%nat)?,\s*(\d+)(?:%nat)?\s*\)', body)
             n_here = min(shard, len(cases) - k)
             if not m or int(m.group(1)) != n_here or int(m.group(2)) != len(found):
                 errors.append('%s: could not parse coqc output reliably: %s' % (os.path.basename(path), out[-800:]))
